@@ -70,7 +70,7 @@ def audit(x):
     if not is_array(x):
         return errs
     sym = R.symname(x)
-    if sym not in R.SYMS:
+    if sym not in R.SYMS and sym not in R.USER_SYMS:
         return [f"unknown symmetry {sym}"]
     if not R.valid(sym, x.charge):
         errs.append(f"invalid total charge {x.charge!r} for {sym}")
